@@ -56,3 +56,40 @@ Theorem C07_text_of_parsed : forall a rho e n l its,
   end.
 Proof. exact reported_text_parses_for_parsed. Qed.
 Print Assumptions C07_text_of_parsed.
+
+(* ---- the STRING builder of expression_builder.py (Model/FcString.v: the f-strings of __init__ / _connect, str.strip(), and re.sub of
+   \((?P<body>\[\d+\])\) over the whole string, \d = the regenerated Unicode Nd table) computes the rendering of the token-level builder the
+   theorems above are about. The string model itself is tied to FormatConstraintExpressionBuilder by its own correspondence (arbitrary strings). *)
+From Ahb Require Import Model.FcString Proofs.C07_string.
+
+(* one pass of the substitution over a rendered forest strips the brackets of exactly the single-key groups, at every depth *)
+Theorem C07_regex_pass_is_norm1 : forall g, forallb item_okb g = true -> re_sub (EvalRC.render g) = EvalRC.render (map norm1 g).
+Proof. exact re_sub_render. Qed.
+Print Assumptions C07_regex_pass_is_norm1.
+
+Theorem C07_string_builder_init : forall n, s_init (view n) = option_map EvalRC.render (fcb_init n).
+Proof. exact init_refines. Qed.
+Print Assumptions C07_string_builder_init.
+
+Theorem C07_string_builder_connect : forall op self o, fcx_good self -> node_good o ->
+  s_connect op (option_map EvalRC.render self) (view o) = option_map EvalRC.render (fcb_connect op self o) /\ fcx_good (fcb_connect op self o).
+Proof. exact connect_refines. Qed.
+Print Assumptions C07_string_builder_connect.
+
+(* the transformer that carries strings reports the rendering of what the transformer that carries forests reports *)
+Theorem C07_reported_string_is_rendering : forall c e res, (forall k, In k (keys_of e) -> key_okb k = true) -> rc_evaluation c e = Ok res ->
+  exists rho sn, build_env c (keys_of e) = Ok rho /\ eval_rc_s (view_env rho) e = Ok sn /\
+                 s_result_fcx sn = option_map EvalRC.render (r_fcx res).
+Proof. exact rc_evaluation_string. Qed.
+Print Assumptions C07_reported_string_is_rendering.
+
+Theorem C07_lexer_keys_are_digit_strings : forall k, (match k with [] => false | _ => true end) = true -> forallb is_ascii_digit k = true -> key_okb k = true.
+Proof. exact ascii_key_ok. Qed.
+Print Assumptions C07_lexer_keys_are_digit_strings.
+
+Theorem C07_string_builder_example :
+  fcs_connect LU (Some [91;57;48;49;93]%N) KFc [57;48;50]%N None = Some [91;57;48;49;93;32;85;32;91;57;48;50;93]%N /\
+  option_map EvalRC.render (fcb_connect LU (Some [FK [57;48;49]%N]) {| nk := KFc; st := C_NEUTRAL; nkey := [57;48;50]%N; nhint := None; nfcx := None |})
+    = Some [91;57;48;49;93;32;85;32;91;57;48;50;93]%N.
+Proof. exact string_builder_example. Qed.
+Print Assumptions C07_string_builder_example.
